@@ -78,6 +78,7 @@ func (s *IndexedState) slock(ctx *Context, read bool) {
 	if ctx != nil && ctx.isPrivileged("hook") {
 		return
 	}
+	VerifYield("IndexedState.lock")
 	if read {
 		s.RLock()
 	} else {
@@ -95,6 +96,7 @@ func (s *IndexedState) sunlock(ctx *Context, read bool) {
 	} else {
 		s.Unlock()
 	}
+	VerifYield("IndexedState.unlocked")
 }
 
 func (s *IndexedState) init(ctx *Context) error {
